@@ -138,32 +138,58 @@ func runC09(t *testing.T, tape *sim.Tape, tier string) *Outcome {
 		c.MaxVersion = maxVer()
 		return c
 	}
-	// the faulty (or scenario) client
-	var faulty *tlsClient
-	var faultyPlain *client
-	switch sc.Cred {
-	case "plaintext":
-		faultyPlain = cl.addClient("faulty", tlsAddr, [][]byte{resp.Cmd("GET", "key:faulty"), resp.Cmd("PING")})
-	case "garbage":
-		faultyPlain = cl.addClient("faulty", tlsAddr, [][]byte{[]byte("\x16\x03\x01\x00\x05hello-this-is-not-tls\r\n"), {0x80, 0x00, 0xff, 0x00, 0x00}})
-	default:
-		cfg := p.ClientConfig(identFor(sc.Cred))
-		cfg.MaxVersion = maxVer()
-		faulty = cl.addTLSClient("faulty", tlsAddr, cfg, tlsScript(sc.Config, "faulty"))
-		if sc.Fault != "complete" {
-			faulty.Fault = sc.Fault
-		}
-		faulty.Chunk = tape.Draw(3, "chunkmode")
+	// the faulty (or scenario) client; a third of the runs repeat it (a fault sequence of up to 12 such clients),
+	// because containment must not depend on how many handshakes have failed before
+	repeat := 1
+	if tape.Draw(3, "repeat") == 2 {
+		repeat = 2 + tape.Draw(11, "nrepeat")
+		o.stat("runs_with_repeated_faulty_client", 1)
 	}
-	if faultyPlain != nil {
-		faultyPlain.Chunk = tape.Draw(4, "chunkmode")
-		faultyPlain.NoDial = true
+	var faulties []*tlsClient
+	var faultyPlains []*client
+	for k := 0; k < repeat; k++ {
+		name := "faulty"
+		if k > 0 {
+			name = fmt.Sprintf("faulty%d", k)
+		}
+		switch sc.Cred {
+		case "plaintext":
+			fp := cl.addClient(name, tlsAddr, [][]byte{resp.Cmd("GET", "key:faulty"), resp.Cmd("PING")})
+			faultyPlains = append(faultyPlains, fp)
+		case "garbage":
+			fp := cl.addClient(name, tlsAddr, [][]byte{[]byte("\x16\x03\x01\x00\x05hello-this-is-not-tls\r\n"), {0x80, 0x00, 0xff, 0x00, 0x00}})
+			faultyPlains = append(faultyPlains, fp)
+		default:
+			cfg := p.ClientConfig(identFor(sc.Cred))
+			cfg.MaxVersion = maxVer()
+			f := cl.addTLSClient(name, tlsAddr, cfg, tlsScript(sc.Config, "faulty"))
+			if sc.Fault != "complete" {
+				f.Fault = sc.Fault
+			}
+			f.Chunk = tape.Draw(3, "chunkmode")
+			faulties = append(faulties, f)
+		}
+	}
+	for _, fp := range faultyPlains {
+		fp.Chunk = tape.Draw(4, "chunkmode")
+		fp.NoDial = true
+	}
+	var faulty *tlsClient
+	if len(faulties) > 0 {
+		faulty = faulties[0]
 	}
 	faultyDialed := func() bool {
-		if faulty != nil {
-			return faulty.Dialed
+		for _, f := range faulties {
+			if !f.Dialed {
+				return false
+			}
 		}
-		return faultyPlain.State != clNew
+		for _, fp := range faultyPlains {
+			if fp.State == clNew {
+				return false
+			}
+		}
+		return true
 	}
 	// well-behaved clients
 	goodA := cl.addTLSClient("goodA", tlsAddr, goodCfg(), tlsScript(sc.Config, "goodA"))
@@ -182,38 +208,43 @@ func runC09(t *testing.T, tape *sim.Tape, tier string) *Outcome {
 	case 2: // after
 		gate = func() bool { return goodA.Finished && goodB.Finished }
 	}
-	if faulty != nil {
-		faulty.DialAfter = gate
+	for _, f := range faulties {
+		f.DialAfter = gate
 	}
 	extra := func() []sim.Action {
-		if faultyPlain != nil && faultyPlain.State == clNew && gate() {
-			return []sim.Action{{Key: "faulty dial", Do: faultyPlain.dial}}
+		var acts []sim.Action
+		for _, fp := range faultyPlains {
+			if fp.State == clNew && gate() {
+				acts = append(acts, sim.Action{Key: fp.Name + " dial", Do: fp.dial})
+			}
 		}
-		return nil
+		return acts
 	}
 	if !cl.run(6000, nil, extra) && len(o.Viol) == 0 {
 		o.violate("harness:budget", "step budget exhausted in %s", sc)
 	}
-	where := sc.String()
+	where := fmt.Sprintf("%s (faulty client x%d)", sc.String(), repeat)
 	// 1. the gate: commands only for admitted identities
 	if len(o.Viol) == 0 {
 		if sc.admitted() {
-			if calls["faulty"] == 0 || faulty == nil || len(faulty.Vals) < len(faulty.Items) {
-				got := 0
-				if faulty != nil {
-					got = len(faulty.Vals)
+			for _, f := range faulties {
+				if calls["faulty"] == 0 || len(f.Vals) < len(f.Items) {
+					o.violate("c09:valid-client-refused:"+sc.Cred, "%s: client %s that must be admitted got %d of its replies (handshake ok=%v err=%v io=%v)", where, f.Name, len(f.Vals), f.HandshakeOK, faultyErr(f), faultyIO(f))
 				}
-				o.violate("c09:valid-client-refused:"+sc.Cred, "%s: a client that must be admitted got %d of its replies (handshake ok=%v err=%v io=%v)", where, got, faulty != nil && faulty.HandshakeOK, faultyErr(faulty), faultyIO(faulty))
 			}
 		} else {
 			if calls["faulty"] > 0 {
 				o.violate(fmt.Sprintf("c09:command-executed-for-rejected-client:%s:config%d", sc.Cred, sc.Config), "%s: %d handler calls were made for a client that must not be admitted", where, calls["faulty"])
 			}
-			if faulty != nil && sc.Fault == "complete" && !faulty.Finished {
-				o.violate("c09:rejected-client-not-disconnected:"+sc.Cred, "%s: the client was neither served nor disconnected", where)
+			for _, f := range faulties {
+				if sc.Fault == "complete" && !f.Finished {
+					o.violate("c09:rejected-client-not-disconnected:"+sc.Cred, "%s: client %s was neither served nor disconnected", where, f.Name)
+				}
 			}
-			if faultyPlain != nil && !faultyPlain.SrvClosed {
-				o.violate("c09:rejected-client-not-disconnected:"+sc.Cred, "%s: the non-TLS client on the TLS port was not disconnected", where)
+			for _, fp := range faultyPlains {
+				if !fp.SrvClosed {
+					o.violate("c09:rejected-client-not-disconnected:"+sc.Cred, "%s: the non-TLS client %s on the TLS port was not disconnected", where, fp.Name)
+				}
 			}
 		}
 	}
@@ -269,6 +300,7 @@ func runC09(t *testing.T, tape *sim.Tape, tier string) *Outcome {
 	cl.finish()
 	o.Sched = fmt.Sprintf("%d|%x", si, hash64(strings.Join(o.Log, "\n")))
 	o.Nontrivial = true
+	_ = faulty
 	o.Sample = map[string]any{"scenario": where, "admitted_expected": sc.admitted(), "handler_calls_by_client": calls, "steps": o.Steps}
 	return o
 }
